@@ -15,17 +15,20 @@ SimInit == MCInit /\ acts = <<>>
 
 SimEnv ==
   \/ \E n \in Nodes, adv \in Advs0 :
+        /\ node[n].alive
         /\ (adv = "j") => (n \in Electors /\ node[n].term < MaxTerm)
-        /\ Tick(n, adv) /\ UNCHANGED <<unused, faults>>
-        /\ acts' = Append(acts, <<"Tick", n, adv>>)
-  \/ \E i, j \in Nodes : Deliver(i, j) /\ UNCHANGED <<unused, faults>> /\ acts' = Append(acts, <<"Deliver", i, j>>)
+        /\ Tick(n, adv, DefaultCut, [sid |-> ToString(<<node[n].applied, node[n].term, Len(node[n].hist)>>), size |-> SnapSize], <<>>)
+        /\ UNCHANGED <<unused, faults>>
+        /\ acts' = Append(acts, <<"Tick", n, adv>>) /\ lastTick' = n
+  \/ \E i, j \in Nodes : Deliver(i, j) /\ UNCHANGED <<unused, faults>> /\ lastTick' = Nil /\ acts' = Append(acts, <<"Deliver", i, j>>)
   \/ \E n \in SubmitAt, c \in unused :
         /\ SubmitOp(n, c, CmdSize, TRUE) /\ unused' = unused \ {c} /\ UNCHANGED faults
-        /\ acts' = Append(acts, <<"Submit", n, c, [kind |-> "op", size |-> CmdSize]>>)
-  \/ \E i, j \in Nodes : /\ i # j /\ faults < MaxFaults /\ Break(i, j) /\ faults' = faults + 1 /\ UNCHANGED unused
-                         /\ acts' = Append(acts, <<"Break", i, j>>)
-  \/ \E i, j \in Nodes : Notice(i, j) /\ UNCHANGED <<unused, faults>> /\ acts' = Append(acts, <<"Notice", i, j>>)
-  \/ \E i, j \in Nodes : Connect(i, j) /\ UNCHANGED <<unused, faults>> /\ acts' = Append(acts, <<"Connect", i, j>>)
+        /\ lastTick' = Nil /\ acts' = Append(acts, <<"Submit", n, c, [kind |-> "op", size |-> CmdSize]>>)
+  \/ \E i, j \in Nodes : /\ i # j /\ {i, j} \in FaultPairs /\ faults < MaxFaults /\ Break(i, j) /\ faults' = faults + 1 /\ UNCHANGED unused
+                         /\ lastTick' = Nil /\ acts' = Append(acts, <<"Break", i, j>>)
+  \/ \E i, j \in Nodes : Notice(i, j) /\ UNCHANGED <<unused, faults>> /\ lastTick' = Nil /\ acts' = Append(acts, <<"Notice", i, j>>)
+  \/ \E i, j \in Nodes : {i, j} \in FaultPairs /\ Connect(i, j) /\ UNCHANGED <<unused, faults>> /\ lastTick' = Nil /\ acts' = Append(acts, <<"Connect", i, j>>)
+  \/ \E fn \in Compactors : ~node[fn].force /\ Compact(fn) /\ UNCHANGED <<unused, faults>> /\ lastTick' = Nil /\ acts' = Append(acts, <<"Compact", fn>>)
 
 SimNext == SimEnv /\ GNext
 SimSpec == SimInit /\ [][SimNext]_simvars
